@@ -37,7 +37,8 @@ ASSUMPTIONS = [
 REQUIRED_CLASSES = ["frozen:rejected:sete", "frozen:rejected:setv", "frozen:rejected:inplace", "frozen:rejected:unreg",
                     "frozen:rejected:regft", "frozen:rejected:regknob", "frozen:rejected:load_same",
                     "frozen:rejected:copy_from", "frozen:accepted:setv", "frozen:accepted:load_noover",
-                    "frozen:refresh", "frozen:accepted:verify", "frozen:accepted:clone", "after-unfreeze:definition-change"]
+                    "frozen:refresh", "frozen:accepted:verify", "frozen:accepted:clone", "after-unfreeze:definition-change",
+                    "freeze-while-frozen", "unfreeze-while-not-frozen"]
 
 FROZEN_KINDS = ["setv", "setv", "setv", "sete", "sete", "inplace", "inplace", "unreg", "setc", "regft", "regknob",
                 "unregtask", "load_same", "load_noover", "load_empty", "copy_from", "refresh", "verify", "cleanup", "clone"]
@@ -68,8 +69,15 @@ def cases(draw, opts):
     for cyc in range(cycles):
         if not alive:
             break
+        # freeze_tree / unfreeze_tree set and clear a flag, they do not nest: a redundant unfreeze before the freeze, a
+        # second freeze while frozen, a second unfreeze afterwards change nothing
+        if draw(st.integers(0, 3)) == 0:
+            g.ops.append({"op": "unfreeze", "redundant": True})
         g.ops.append({"op": "freeze"})
-        for _ in range(draw(st.integers(2, 10))):
+        again = draw(st.integers(0, 12))
+        for i_frozen in range(draw(st.integers(2, 10))):
+            if i_frozen == again:
+                g.ops.append({"op": "freeze", "redundant": True})
             kind = draw(st.sampled_from(FROZEN_KINDS))
             if kind.startswith("load") and any(nonfinite_literal(a) for a in g.model.defs.values()):
                 g.count_excl("load of a definition with a captured non-finite literal (outside C11's quantifier)")
@@ -95,6 +103,8 @@ def cases(draw, opts):
         if not alive:
             break
         g.ops.append({"op": "unfreeze"})
+        if draw(st.integers(0, 4)) == 0:
+            g.ops.append({"op": "unfreeze", "redundant": True})
         for _ in range(draw(st.integers(1, 6))):
             if not g.step():
                 alive = False
@@ -177,11 +187,15 @@ def exec_case(ctx, case):
         k = op["op"]
         where = {"step": i, "op": rendered["history"][i], "history": rendered["history"][:i + 1]}
         if k == "freeze":
+            if op.get("redundant"):
+                classes.add("freeze-while-frozen")
             frozen = True
             seen["ever_frozen"] = True
             real_apply(real, op)
             continue
         if k == "unfreeze":
+            if op.get("redundant"):
+                classes.add("unfreeze-while-not-frozen")
             frozen = False
             real_apply(real, op)
             continue
